@@ -49,6 +49,7 @@ pub fn repo_op() -> impl Strategy<Value = Op> {
         1 => any::<u16>().prop_map(Op::ResetSoft),
         2 => (any::<u16>(), any::<u16>()).prop_map(|(a, b)| Op::BlankEdgeName(a, b)),
         3 => any::<u16>().prop_map(Op::DirNameSibling),
+        2 => any::<u16>().prop_map(Op::OutDirSibling),
         3 => (any::<u16>(), any::<u16>()).prop_map(|(a, b)| Op::RevertTo(a, b)),
     ]
 }
